@@ -688,3 +688,16 @@ package gorm
 //@   in gorm.(*DB).Rollback gorm.(*DB).Commit
 //@   min-sites 2
 //@   assert transaction-object-exists: uf("payloadRef", boxof(recv)) != 0 [C04]
+
+//@ # ---------- C09/C08: the soft-delete UPDATE derives its key conditions like Delete does ----------
+//@ ghost sdKeyLookups
+//@ event call schema.GetIdentityFieldValuesMap
+//@   in gorm.(SoftDeleteDeleteClause).ModifyStatement
+//@   do sdKeyLookups = sdKeyLookups + 1
+//@ site soft-delete-keys-from-value-then-model
+//@   match call schema.GetIdentityFieldValuesMap
+//@   in gorm.(SoftDeleteDeleteClause).ModifyStatement
+//@   min-sites 2
+//@   entry sdKeyLookups == 0
+//@   assert first-the-deleted-value: sdKeyLookups == 0 ==> arg1 == stmt.ReflectValue [C09]
+//@   assert then-the-model-value: sdKeyLookups >= 1 ==> ref(arg1.ptr) == uf("payloadRef", boxof(stmt.Model)) [C09]
